@@ -511,7 +511,7 @@ def run(rep):
             for sign in ("hebbian", "anti"):
                 sp = "stepalt" if kind in ("mstdp", "mstdpet") else "pos"
                 jobs.append((history_shard, (kind, conn, nio, T2, 1.0, sign, "cumulative", None, sp)))
-                if conn in ("dense", "densemd", "conv", "conv2c") and nio in ((2, 2), (1, 1)):
+                if conn in ("dense", "densemd", "lateral", "conv", "conv2c") and nio in ((2, 2), (1, 1)):
                     jobs.append((history_shard, (kind, conn, nio, T2, 1.0, sign, "cumulative", ("delayed", 1), sp)))
                     jobs.append((history_shard, (kind, conn, nio, T2, 1.0, sign, "nearest", ("frozen", 1), sp)))
         for sign in SIGNS:
